@@ -48,6 +48,14 @@ FAMILIES = {
     "exp3": ([["exprate", 0], ["exprate", 1], ["exprate", 2]], 3, (0.125, 2.0)),
 }
 
+# exactly rank-deficient bases: (basis, nparams, range, a maximal set of independent columns)
+RANKDEF = {
+    "dup": ([["expdecay", 0], ["expdecay", 0], ["const"]], 1, (0.5, 6.0), [0, 2]),
+    "dep": ([["const"], ["lin"], ["affine"], ["exprate", 0]], 1, (0.25, 1.5), [0, 1, 3]),
+    "zero": ([["exprate", 0], ["zero"], ["lin"]], 1, (0.25, 1.5), [0, 2]),
+    "dup2": ([["cos", 0], ["const"], ["cos", 0], ["const"]], 1, (0.25, 1.5), [0, 1]),
+}
+
 
 def dyadic(rng, lo, hi, bits=4):
     """a random multiple of 2^-bits in [lo, hi]"""
@@ -68,7 +76,10 @@ def gen_problem(rng, scalar=None, family=None, N=None, S=None, ctor=None, weight
     """a random well-formed fitting problem; returns the scenario head (no ops)"""
     scalar = scalar or rng.choice(["f64", "f64", "f32"])
     family = family or rng.choice(list(FAMILIES))
-    basis, P, (lo, hi) = FAMILIES[family]
+    if family in RANKDEF:
+        basis, P, (lo, hi), _sel = RANKDEF[family]
+    else:
+        basis, P, (lo, hi) = FAMILIES[family]
     M = len(basis)
     N = N or rng.randint(M + 1, M + 6)
     ctor = ctor or rng.choice(["new", "mrhs", "new_parallel", "mrhs_parallel"])
@@ -84,10 +95,12 @@ def gen_problem(rng, scalar=None, family=None, N=None, S=None, ctor=None, weight
                       fail_below=fail_below, dirty_fail=dirty_fail)
     Y = [[hx(dyadic(rng, -4, 4, 3), scalar) for _ in range(N)] for _ in range(S)]
     build = [["obs", N, Y]]
-    wkind = weights if weights is not None else rng.choice(["none", "none", "pos", "mixed", "unit"])
+    wkind = weights if weights is not None else rng.choice(["none", "none", "pos", "mixed", "unit", "const"])
     if wkind != "none":
         if wkind == "unit":
             w = [1.0] * N
+        elif wkind == "const":
+            w = [rng.choice([3.0, 0.25, -1.0, -2.5])] * N
         elif wkind == "pos":
             w = [dyadic(rng, 0.25, 4, 2) for _ in range(N)]
         else:
@@ -135,6 +148,10 @@ def py_basis(b, x, a):
             return 1.0
         if k == "lin":
             return x
+        if k == "affine":
+            return 1.0 + x
+        if k == "zero":
+            return 0.0
         if k == "expdecay":
             return math.exp(-x / a[b[1]])
         if k == "exprate":
